@@ -3,7 +3,7 @@ from __future__ import annotations
 
 from ..model import AnalysisError
 from ..norm import Normalizer, show_term
-from ..vgraph import NONE, Closure, show, walk
+from ..vgraph import FALSE, NONE, TRUE, Closure, show, walk
 from .util import fields, live, one
 
 EXPLANATION = (
@@ -134,7 +134,7 @@ out = jnp.take(x, idx, axis=0)
         s.ob("C06.3", con3 + tag, len(ch) == 1, "one index draw (one index node for every leaf)", loc3, key="one-choice", detail=str(len(ch)))
         if len(ch) == 1:
             kw = dict((k, v) for k, v in ch[0][3] if k)
-            s.ob("C06.3", con3 + tag, kw.get("replace") == ("const", False), "sampling is without replacement", loc3, key="no-replacement",
+            s.ob("C06.3", con3 + tag, kw.get("replace") == FALSE, "sampling is without replacement", loc3, key="no-replacement",
                  detail=show(kw.get("replace", NONE)), necessary_for="no transition twice within a batch")
             s.ob("C06.3", con3 + tag, "p" in kw and ("attr", self_, "position") in set(walk(kw["p"])),
                  "probabilities depend on the fill level (position)", loc3, key="probs-from-fill", detail=show(kw.get("p", NONE), maxlen=160),
